@@ -165,7 +165,7 @@ Section dispatch.
     - unfold remove_cluster. destruct (clusters s !! id); cbn; auto.
     - unfold set_health_check. destruct (hc_valid hc); [destruct (clusters s !! id)|]; cbn; auto.
     - unfold remove_health_check. destruct (clusters s !! id); cbn; auto.
-    - unfold add_listener. destruct (get_l k s !! a); cbn; auto.
+    - unfold add_listener. destruct (needs_sid k && negb sid_ok); [auto|]. destruct (get_l k s !! a); cbn; auto.
       eapply Inv_backends_eq; [apply backends_set_l|auto].
     - unfold remove_listener. destruct (kind_of proxy); [destruct (get_l l s !! a)|]; cbn; auto.
       eapply Inv_backends_eq; [apply backends_set_l|auto].
@@ -217,7 +217,7 @@ Section dispatch.
     - unfold remove_cluster in H. destruct (clusters s !! id); inv_pair H; reflexivity.
     - unfold set_health_check in H. destruct (hc_valid hc); [destruct (clusters s !! id)|]; inv_pair H; reflexivity.
     - unfold remove_health_check in H. destruct (clusters s !! id); inv_pair H; reflexivity.
-    - unfold add_listener in H. destruct (get_l k s !! a); inv_pair H; reflexivity.
+    - unfold add_listener in H. destruct (needs_sid k && negb sid_ok); [inv_pair H; reflexivity|]. destruct (get_l k s !! a); inv_pair H; reflexivity.
     - unfold remove_listener in H. destruct (kind_of proxy); [destruct (get_l l s !! a)|]; inv_pair H; reflexivity.
     - unfold set_active in H. destruct (kind_of proxy); [destruct (get_l l s !! a)|]; inv_pair H; reflexivity.
     - unfold set_active in H. destruct (kind_of proxy); [destruct (get_l l s !! a)|]; inv_pair H; reflexivity.
@@ -331,7 +331,7 @@ Section dispatch.
         first [apply frame_refl | apply frame_clusters; other_key].
     - unfold remove_health_check in H. destruct (clusters s !! id); inv_pair H;
         first [apply frame_refl | apply frame_clusters; other_key].
-    - unfold add_listener in H. destruct (get_l k s !! a); inv_pair H;
+    - unfold add_listener in H. destruct (needs_sid k && negb sid_ok); [inv_pair H; apply frame_refl|]. destruct (get_l k s !! a); inv_pair H;
         first [apply frame_refl | apply frame_listener; other_key].
     - unfold remove_listener in H. destruct (kind_of proxy); [destruct (get_l l s !! a)|]; inv_pair H;
         first [apply frame_refl | apply frame_listener; other_key].
@@ -379,9 +379,9 @@ Section dispatch.
     cbn. unfold remove_cluster. destruct (clusters s !! i) eqn:E; intros H; inv_pair H; cbn.
     split; [apply lookup_delete|eauto].
   Qed.
-  Lemma ok_add_listener s k a l s' : dispatch s (RAddListener k a l) = (s', Ok) -> get_l k s' !! a = Some l /\ get_l k s !! a = None.
+  Lemma ok_add_listener s k a l ok s' : dispatch s (RAddListener k a l ok) = (s', Ok) -> get_l k s' !! a = Some l /\ get_l k s !! a = None.
   Proof.
-    cbn. unfold add_listener. destruct (get_l k s !! a) eqn:E; intros H; inv_pair H.
+    cbn. unfold add_listener. destruct (needs_sid k && negb ok); [intros H; inv_pair H|]. destruct (get_l k s !! a) eqn:E; intros H; inv_pair H.
     split; [|reflexivity]. destruct k; cbn; apply lookup_insert.
   Qed.
   Lemma ok_remove_listener s p a s' k :
